@@ -101,7 +101,12 @@ def check(chk: Check) -> None:
             if isinstance(n, ast.Attribute) and isinstance(n.ctx, ast.Store) and isinstance(n.value, ast.Name) and n.value.id == sp:
                 self_attrs.setdefault(n.attr, []).append((mn, n.lineno))
     for a, sites in sorted(self_attrs.items()):
-        outside = [s for s in sites if s[0] != '__init__']
+        # (__setstate__ / __copy__ / __deepcopy__ build an object, like __init__: they run when a parser is unpickled or copied,
+        # not during a parse / eval / list_names call)
+        outside = [s for s in sites if s[0] not in ('__init__', '__setstate__', '__copy__', '__deepcopy__', '__new__', '__post_init__')]
+        if outside and a in common.write_only_attrs(F):
+            chk.ok(R1, 'parser.%s' % a, '%s:%d' % (pci.module.rel, sites[0][1]), 'written in %s, read by no code of the package except where it is shown to the host (property / repr / log line): a statistic, not state' % ', '.join(sorted({s[0] for s in outside})))
+            continue
         chk.require(not outside, R1, 'parser.%s' % a, '%s:%d' % (pci.module.rel, sites[0][1]),
                     'assigned in __init__ only (configuration)' if not outside else
                     'assigned in %s: per-call data is parked on the parser object' % ', '.join(sorted({s[0] for s in outside})))
@@ -276,6 +281,10 @@ def check(chk: Check) -> None:
         for p in SymExec(F, fi).run():
             for e in p.events:
                 if e.kind in ('store_attr', 'aug_attr') and om.carries(e.obj, selft):
+                    if e.attr in common.write_only_attrs(F):
+                        continue        # a counter nobody reads (statistics for the host): nothing later can depend on it
+                    if any(om.carries(e.obj, ('attr', selft, a_)) for (cq_, a_) in common.statistics_objects(F) if cq_ == PARSER):
+                        continue        # ... or a field of an object the parser only ever writes into
                     v = freeze(e.value)
                     if e.kind == 'aug_attr' or not is_const(v):
                         problems.append('`%s` keeps per-call data (%s) on the parser' % (e.text(), show(v)))
@@ -343,6 +352,8 @@ def _module_state(chk: Check) -> List[Tuple[str, str, str]]:
             continue
         if q in import_only or any(q.startswith(o + '.') for o in import_only):
             continue        # runs while the module is imported and never again: it builds the module's initial state
+        if q in F.host_only_functions():
+            continue        # configuration API no code of the package calls (set_x(...)): what the host sets there is configuration, not history
         for n in ast.walk(fi.node):
             if isinstance(n, ast.Global):
                 out.append(('%s :: global %s' % (q, ', '.join(n.names)), '%s:%d' % (fi.module.rel, n.lineno),
